@@ -139,6 +139,26 @@ def check_c15(tier, seed, jobs):
         "components": {"real": ["cactusref (built from /repo working tree with --cfg cactusref_verif)", "hashbrown", "rustc-hash", "system allocator"], "stub": ["payload value type"]},
         "exhaustive": False,
     }
+    # small-history side: per-trace visit bound under the history simulator
+    hist = None
+    if not bad:
+        total = max(16, int(D.RUNS[tier]["C15"] * float(os.environ.get("VERIF_SCALE", "1"))))
+        viol, stats, samples, ndist, norders, _ = D.run_batches("C15", seed, total, tier == "thorough", jobs)
+        mine = [v for v in viol if "C15" in v.get("props", [])]
+        hist = {"generated_histories": stats.get("runs", 0), "executions": stats.get("execs", 0), "traces_checked": stats.get("p_c15_visit_checks", 0),
+                "group_teardowns": stats.get("p_path_cycle", 0), "distinct_nontrivial_histories": ndist, "sample": samples[:2]}
+        coverage["small_history_visit_bound"] = hist
+        coverage["evaluations"] += stats.get("execs", 0)
+        coverage["distinct_nontrivial"] += ndist
+        if mine:
+            mine.sort(key=lambda v: len(v.get("ops", "")))
+            v = mine[0]
+            mini = D.minimise("C15", v)
+            path = D.write_replay("C15", v, mini)
+            D.write_evidence("C15", tier, seed, "exploration", coverage, time.time() - t0, len(mine))
+            print(f"violation kind={v['kind']} cause={v['cause']} msg={v.get('msg')}")
+            print(f"VIOLATION property=C15 replay={path}")
+            return 1
     if bad:
         j, (kind, cause, msg) = bad[0]
         os.makedirs(D.REPLAYS, exist_ok=True)
